@@ -24,21 +24,31 @@ import (
 type rcCircuit struct {
 	X, Y frontend.Variable
 	n, m int
+	reps int // Y is checked reps times (many wide checks make the gadget choose wider limbs)
 }
 
 func (c *rcCircuit) Define(api frontend.API) error {
 	rc := rangecheck.New(api)
 	rc.Check(c.X, c.n)
 	if c.m > 0 {
-		rc.Check(c.Y, c.m)
+		for i := 0; i < max(1, c.reps); i++ {
+			rc.Check(c.Y, c.m)
+		}
 	}
 	return nil
 }
 
 func aroundPow2(tape *simrt.Tape, q *big.Int, n int) *big.Int {
-	switch tape.Choose(simrt.SWorkload, 6) {
+	switch tape.Choose(simrt.SWorkload, 8) {
 	case 0:
 		return drawBiased(tape, q)
+	case 6, 7:
+		// t / 2^s mod q: huge field elements that become small when scaled by a power of two
+		// (the values a check on a shifted limb alone would let through)
+		t := bi(int64(1 + tape.Choose(simrt.SWorkload, 7)))
+		sh := new(big.Int).Lsh(bi(1), uint(1+tape.Choose(simrt.SWorkload, 20)))
+		sh.ModInverse(sh, q)
+		return t.Mul(t, sh).Mod(t, q)
 	case 1:
 		x := new(big.Int).Lsh(bi(1), uint(n))
 		return x.Mod(x, q)
@@ -60,10 +70,16 @@ func aroundPow2(tape *simrt.Tape, q *big.Int, n int) *big.Int {
 	}
 }
 
-func rcCase(n, m int) *gcase {
+func rcCase(n, m int) *gcase { return rcCaseReps(n, m, 1) }
+
+func rcCaseReps(n, m, reps int) *gcase {
+	name := fmt.Sprintf("rangecheck%d+%d", n, m)
+	if reps > 1 {
+		name += fmt.Sprintf("x%d", reps)
+	}
 	return &gcase{
-		Name:    fmt.Sprintf("rangecheck%d+%d", n, m),
-		Circuit: &rcCircuit{n: n, m: m},
+		Name:    name,
+		Circuit: &rcCircuit{n: n, m: m, reps: reps},
 		SmallOK: false,
 		Assign: func(tape *simrt.Tape, q *big.Int) (frontend.Circuit, bool, func(map[int][]*big.Int) string, string) {
 			x := aroundPow2(tape, q, n)
@@ -72,7 +88,7 @@ func rcCase(n, m int) *gcase {
 				y = aroundPow2(tape, q, m)
 			}
 			sat := x.BitLen() <= n && (m == 0 || y.BitLen() <= m)
-			return &rcCircuit{X: x, Y: y, n: n, m: m}, sat, func(map[int][]*big.Int) string { return "" }, fmt.Sprintf("x=%s y=%s", x, y)
+			return &rcCircuit{X: x, Y: y, n: n, m: m, reps: reps}, sat, func(map[int][]*big.Int) string { return "" }, fmt.Sprintf("x=%s y=%s", x, y)
 		},
 	}
 }
@@ -161,6 +177,7 @@ func lookupCase(size, queries, rbit int) *gcase {
 }
 
 var c13Cases = []*gcase{
+	rcCaseReps(3, 64, 64), rcCaseReps(1, 32, 100), rcCaseReps(5, 16, 200), rcCaseReps(7, 64, 40), rcCaseReps(2, 60, 300), rcCaseReps(12, 64, 2000),
 	rcCase(1, 0), rcCase(3, 0), rcCase(8, 0), rcCase(11, 5), rcCase(16, 64), rcCase(31, 0), rcCase(64, 7), rcCase(100, 0), rcCase(253, 0),
 	lookupCase(1, 1, 0), lookupCase(2, 2, 0), lookupCase(5, 3, 0), lookupCase(16, 4, 9), lookupCase(40, 2, 0), lookupCase(300, 3, 12),
 }
